@@ -9,6 +9,18 @@ NOTE = ("Trusted: Lean 4.33 kernel (axioms propext, Classical.choice, Quot.sound
         "differential correspondence streams named here (agreement on generated inputs, not a proof of the tie). ")
 
 CLAIMS = {
+ 'C10': dict(
+   text="Lean theorems for ALL values: degree_survives (every valid interval < 2^64 prints and reads back), key_survives (42 spellings), fraction_survives (all "
+        "n/d, bare n when d = 1, validators), dynamic_survives, bpm_survives, text_survives, instance_survives (decodeInstance (encodeInstance i) = ok i for every "
+        "valid instance), text_conv_output_readable (for ANY chord text, either notation, any key: every instance `text conv` emits is valid - "
+        "convItems_valid by induction, using C03/C15 - hence read back by `write` as exactly the converted instance), decoded_is_valid (what `write` reads "
+        "is valid, so `write conv` re-prints round-trippable values). Tie: `crd text conv` output re-read as raw YAML scalars and compared with the model's "
+        "printed strings; `crd write conv -c cmt` (800 / 12,000 documents incl. flags, unknown and repeated commands) compared with the model, and on the real "
+        "code `write conv | write event` compared with `write event` of the original document (real-vs-real oracle).",
+   note="ASSUMED (not modelled): yaml.v3 Marshal/Unmarshal carries string scalars (any valid UTF-8) and mapping/sequence structure unchanged; exercised with "
+        "YAML-significant, multi-line and non-ASCII texts. A chord without `degree:` prints a garbage degree in `write conv` and is refused by `write` (as the "
+        "original document is).",
+   technique="Lean 4 proof: print/parse bijections over List Char (core digit lemmas), validity invariant by induction over the converter; differential tie + real-vs-real pipeline oracle", ref="6 (C10)"),
  'C11': dict(
    text="Lean theorems over ALL inputs: trivia_before_token (white space in every lexer state, white space and newline-terminated comments outside {…}), "
         "trivia_after_token (after ANY token that is not a key/value run, inserting trivia admitted in the state it leaves changes neither that token, nor the "
